@@ -144,11 +144,12 @@ PROPERTIES = {
         "rule": "a case = one operation with one parameterisation, operand shapes, tracked subset and seed; distinct by program hash",
     },
     "C01": {
-        "level_text": "AutodiffAbs!RefAdj is a counter-free definition of the adjoint of every node (sum over tracked uses by reached consumers of the definition-derived VJPs); TLC checks that the implementation-shaped pass AutodiffImpl (consumer counts, pending sums, depth-first recursion) implements it on every graph of <=2 (thorough <=3) operations with every tracked/untracked operand choice and root (and that the linear scatter form of RefAdj used by the validators equals the gather definition: AdjFormsAgree, StoreFormsAgree), and the trace specification requires every gradient the real crate deposits - on TLC-enumerated graphs, TLC-simulated histories and random tensor programs with data-dependent control flow - to equal it bit for bit",
+        "level_text": "AutodiffAbs!RefAdj is a counter-free definition of the adjoint of every node (sum over tracked uses by reached consumers of the definition-derived VJPs); TLC checks that the implementation-shaped pass AutodiffImpl (consumer counts, pending sums, depth-first recursion) implements it on every graph of <=2 (thorough <=3) operations with every tracked/untracked operand choice and root (as invariants - PassRefinesAbs - and as a refinement: PROPERTY AbsRefined, every behaviour of AutodiffImpl is a behaviour of the atomic AutodiffAbsSpec under the mapping 'state at pass begin while a pass runs'; also that the linear scatter form of RefAdj used by the validators equals the gather definition: AdjFormsAgree, StoreFormsAgree), and the trace specification requires every gradient the real crate deposits - on TLC-enumerated graphs, TLC-simulated histories and random tensor programs with data-dependent control flow - to equal it bit for bit",
         "level_note": ENGINE_NOTE,
         "technique": "TLC model checking of AutodiffImpl against AutodiffAbs + TLC trace validation of spec-generated and random programs run on the real crate",
         "mc": lambda tier: [mc("MC_Engine_p1" if tier == "quick" else "MC_Engine_t3"),
-                            mc("GenEngine_forms", module="GenEngine")],
+                            mc("GenEngine_forms", module="GenEngine"),
+                            mc("MC_Engine_refine")],
         "families": lambda tier, seed: [
             tlc_family("tlc_graphs", "GenEngine_pass", "C01", limit=2500 if tier == "quick" else 30000, seed=seed,
                        mask=M_GRAD, exhaustive=True, require={"passes": 1000}),
